@@ -6,7 +6,7 @@ batch loop, context / logger clean-up, sink dispatch (all invisible or harmless 
 namespace Backend.PB
 open Backend
 
-variable {fl : Nat} {T : Nat → Prop} {C : List Nat} {s : BSt}
+variable {c : Cfg} {fl : Nat} {T : Nat → Prop} {C : List Nat} {s : BSt}
 
 /-- `s'` differs from `s` only in fields the invariant cannot see -/
 structure Same (s s' : BSt) : Prop where
@@ -21,7 +21,13 @@ structure Same (s s' : BSt) : Prop where
   pop : s'.popLog = s.popLog
 
 theorem ThEq.trans {a b c : Th} (h1 : ThEq a b) (h2 : ThEq b c) : ThEq a c :=
-  ⟨h2.buf.trans h1.buf, h2.q.trans h1.q, h2.acc.trans h1.acc, h2.wpos.trans h1.wpos, h2.wh.trans h1.wh, h2.rpos.trans h1.rpos, h2.valid.trans h1.valid⟩
+  ⟨h2.buf.trans h1.buf, h2.q.trans h1.q, h2.acc.trans h1.acc, h2.wpos.trans h1.wpos, h2.wh.trans h1.wh,
+   h2.rpos.trans h1.rpos, h2.valid.trans h1.valid, by
+    rcases h2.wc with e | e
+    · rcases h1.wc with e1 | e1
+      · exact .inl (e.trans e1)
+      · exact .inr (by rw [e, e1, h2.wh])
+    · exact .inr e⟩
 
 theorem Same.refl (s : BSt) : Same s s := ⟨rfl, rfl, fun _ => ThEq.refl _, rfl, rfl, rfl, rfl, fun _ => rfl, rfl⟩
 
@@ -44,17 +50,17 @@ theorem Same.setTh (s : BSt) (i : Nat) (f : Th → Th) (hf : ThEq (s.th i) (f (s
   · rw [h1]; exact ThEq.refl _
   · rw [h1]; exact hf
 
-theorem PI.same {ex} {s s' : BSt} (h : PI ex fl T C s) (hs : Same s s') : PI ex fl T C s' :=
+theorem PI.same {ex} {s s' : BSt} (h : PI c ex fl T C s) (hs : Same s s') : PI c ex fl T C s' :=
   h.congr hs.cfg hs.now hs.th hs.len hs.reg hs.cache hs.nf hs.act hs.pop
 
 /-- the invariant outside a pass: nothing is claimed about unread queues, the cache is whatever it is -/
-abbrev PIo (fl : Nat) (s : BSt) : Prop := PI none fl (fun _ => True) s.cache s
+abbrev PIo (c : Cfg) (fl : Nat) (s : BSt) : Prop := PI c none fl (fun _ => True) s.cache s
 
-theorem PI.toPIo (h : PI none fl T C s) : PIo fl s := by
+theorem PI.toPIo (h : PI c none fl T C s) : PIo c fl s := by
   have := h.weakenT (T' := fun _ => True) (fun _ _ => trivial)
   rw [← h.cacheEq] at this; exact this
 
-theorem PIo.same {s s' : BSt} (h : PIo fl s) (hs : Same s s') : PIo fl s' := by
+theorem PIo.same {s s' : BSt} (h : PIo c fl s) (hs : Same s s') : PIo c fl s' := by
   have := PI.same h hs
   unfold PIo; rw [hs.cache]; exact this
 
@@ -121,15 +127,15 @@ theorem core_processEvent (s : BSt) (st : Stmt) : core (processEvent s st).1 = c
 
 /-! ### refreshing the cache -/
 
-theorem refresh_fresh (h : PI none fl T C s) : ∀ i ∈ (refreshCache s).registry, i ∈ (refreshCache s).cache := by
+theorem refresh_fresh (h : PI c none fl T C s) : ∀ i ∈ (refreshCache s).registry, i ∈ (refreshCache s).cache := by
   unfold refreshCache
   split
   · intro i hi; exact hi
   · rename_i hn; exact h.fresh (by simpa using hn)
 
 /-- after a refresh every registered context is cached; only cached contexts remain to be read -/
-theorem PI.refresh (h : PI none fl T C s) :
-    PI none fl (fun i => T i ∧ i ∈ (refreshCache s).cache) (refreshCache s).cache (refreshCache s) := by
+theorem PI.refresh (h : PI c none fl T C s) :
+    PI c none fl (fun i => T i ∧ i ∈ (refreshCache s).cache) (refreshCache s).cache (refreshCache s) := by
   have hfr := refresh_fresh h
   revert hfr
   unfold refreshCache
@@ -140,19 +146,19 @@ theorem PI.refresh (h : PI none fl T C s) :
       bufCache := fun i hi _ => hi
       cacheReg := fun i hi => hi
       fresh := fun _ i hi => hi
-      ord := fun hp => by
-        have o := h.ord hp
+      ord := fun hg0 hr0 hp => by
+        have o := h.ord hg0 hr0 hp
         exact { popSorted := o.popSorted, above := o.above, popFloor := o.popFloor, bufFloor := o.bufFloor,
                 late := fun i hi hT => o.late i hi (fun ht => hT ⟨ht, hi⟩) } }
   · intro hfr
     exact { h with
       cacheEq := rfl
-      ord := fun hp => by
-        have o := h.ord hp
+      ord := fun hg0 hr0 hp => by
+        have o := h.ord hg0 hr0 hp
         exact { popSorted := o.popSorted, above := o.above, popFloor := o.popFloor, bufFloor := o.bufFloor,
                 late := fun i hi hT => o.late i hi (fun ht => hT ⟨ht, hfr i hi⟩) } }
 
-theorem PIo.refresh (h : PIo fl s) : PIo fl (refreshCache s) := (PI.refresh h).toPIo
+theorem PIo.refresh (h : PIo c fl s) : PIo c fl (refreshCache s) := (PI.refresh h).toPIo
 
 /-! ### emptiness checks -/
 
@@ -181,7 +187,7 @@ theorem same_allEmpty_fold (l : List Nat) (acc : BSt × Bool) :
     rw [List.foldl_cons]
     exact (same_ctxEmpty acc.1 x).trans (ih ((ctxEmpty acc.1 x).1, acc.2 && (ctxEmpty acc.1 x).2))
 
-theorem PIo.allEmpty (h : PIo fl s) : PIo fl (allEmpty s).1 := by
+theorem PIo.allEmpty (h : PIo c fl s) : PIo c fl (allEmpty s).1 := by
   unfold Backend.allEmpty
   exact h.refresh.same (same_allEmpty_fold (refreshCache s).cache (refreshCache s, true))
 
@@ -237,8 +243,8 @@ theorem hp_fold (l : List Nat) (acc : BSt × Bool) (hq : ∀ i, QC (acc.1.th i))
 theorem hasPending_eq (s : BSt) : hasPending s = (refreshCache s).cache.foldl hpStep (refreshCache s, false) := rfl
 
 /-- the guard: when it reports nothing pending, every registered context with an empty buffer has an empty queue -/
-theorem PIo.hasPending (h : PIo fl s) :
-    PIo fl (hasPending s).1 ∧ ((hasPending s).2 = false →
+theorem PIo.hasPending (h : PIo c fl s) :
+    PIo c fl (hasPending s).1 ∧ ((hasPending s).2 = false →
       ∀ i ∈ (hasPending s).1.registry, ((hasPending s).1.th i).buf = [] → ((hasPending s).1.th i).qStmts = []) := by
   rw [hasPending_eq]
   have hr := h.refresh
@@ -264,19 +270,19 @@ theorem foldl_inv {α β} (P : β → Prop) (f : β → α → β) (l : List α)
 /-- what the proofs assume of the injection runner: it preserves the invariant (for every cut-off, every set
     of unread contexts, every cache) — true of any sequence of frontend operations (`PI.runInj`) -/
 def InjOK (inj : BSt → Nat → BSt) : Prop :=
-  ∀ fl T C s site, PI none fl T C s → PI none fl T C (inj s site)
+  ∀ c fl T C s site, PI c none fl T C s → PI c none fl T C (inj s site)
 
-theorem InjOK.pio {inj : BSt → Nat → BSt} (hi : InjOK inj) {s : BSt} (h : PIo fl s) (site : Nat) : PIo fl (inj s site) :=
-  (hi _ _ _ _ site h).toPIo
+theorem InjOK.pio {inj : BSt → Nat → BSt} (hi : InjOK inj) {s : BSt} (h : PIo c fl s) (site : Nat) : PIo c fl (inj s site) :=
+  (hi _ _ _ _ _ site h).toPIo
 
-theorem PIo.checkFailures {inj : BSt → Nat → BSt} (hi : InjOK inj) (h : PIo fl s) : PIo fl (checkFailures inj s) := by
+theorem PIo.checkFailures {inj : BSt → Nat → BSt} (hi : InjOK inj) (h : PIo c fl s) : PIo c fl (checkFailures inj s) := by
   unfold Backend.checkFailures
-  apply foldl_inv (fun x : BSt => PIo fl x) _ _ _ h
+  apply foldl_inv (fun x : BSt => PIo c fl x) _ _ _ h
   intro b i hb
   simp only
   split
   · apply hi.pio
-    exact (hb.same (Same.setTh _ i _ ⟨rfl, rfl, rfl, rfl, rfl, rfl, rfl⟩)).frame rfl
+    exact (hb.same (Same.setTh _ i _ ⟨rfl, rfl, rfl, rfl, rfl, rfl, rfl, .inl rfl⟩)).frame rfl
   · exact hb
 
 theorem findFirst_spec (s : BSt) (l : List Nat) (hq : ∀ i, QC (s.th i)) :
@@ -305,8 +311,8 @@ theorem findFirst_spec (s : BSt) (l : List Nat) (hq : ∀ i, QC (s.th i)) :
         exact ⟨hs.trans i1, i2⟩
 
 /-- an invalidated, drained context leaves the registry and the cache -/
-theorem PIo.remove (h : PIo fl s) (i : Nat) (hv : (s.th i).valid = false) (hc : chain (s.th i) = []) (n : Nat) :
-    PIo fl { s with registry := s.registry.filter (· ≠ i), cache := s.cache.filter (· ≠ i), invalidCnt := n } := by
+theorem PIo.remove (h : PIo c fl s) (i : Nat) (hv : (s.th i).valid = false) (hc : chain (s.th i) = []) (n : Nat) :
+    PIo c fl { s with registry := s.registry.filter (· ≠ i), cache := s.cache.filter (· ≠ i), invalidCnt := n } := by
   unfold PIo at *
   exact { h with
     cacheEq := rfl
@@ -328,14 +334,14 @@ theorem PIo.remove (h : PIo fl s) (i : Nat) (hv : (s.th i).valid = false) (hc : 
     fresh := fun hf j hj => by
       obtain ⟨h1, h2⟩ := List.mem_filter.mp hj
       exact List.mem_filter.mpr ⟨h.fresh hf j h1, h2⟩
-    ord := fun hp => by
-      have o := h.ord hp
+    ord := fun hg0 hr0 hp => by
+      have o := h.ord hg0 hr0 hp
       exact { popSorted := o.popSorted
               above := fun p hpp j hj => o.above p hpp j (List.mem_filter.mp hj).1
               popFloor := o.popFloor, bufFloor := o.bufFloor
               late := fun j hj => o.late j (List.mem_filter.mp hj).1 } }
 
-theorem PIo.cleanupGo (fuel : Nat) (s : BSt) (h : PIo fl s) : PIo fl (cleanupContexts.go fuel s) := by
+theorem PIo.cleanupGo (fuel : Nat) (s : BSt) (h : PIo c fl s) : PIo c fl (cleanupContexts.go fuel s) := by
   induction fuel generalizing s with
   | zero => exact h
   | succ n ih =>
@@ -347,30 +353,40 @@ theorem PIo.cleanupGo (fuel : Nat) (s : BSt) (h : PIo fl s) : PIo fl (cleanupCon
     · rename_i s1 i heq
       rw [heq] at f1 f2
       apply ih
-      have h1 : PIo fl s1 := h.same f1
+      have h1 : PIo c fl s1 := h.same f1
       have h2 := h1.remove i (f2 i rfl).1 (f2 i rfl).2 (counterMod s1.cfg (s1.invalidCnt + 2 ^ s1.cfg.invalidBits - 1))
-      exact h2.same (Same.setTh _ i _ ⟨rfl, rfl, rfl, rfl, rfl, rfl, rfl⟩)
+      exact h2.same (Same.setTh _ i _ ⟨rfl, rfl, rfl, rfl, rfl, rfl, rfl, .inl rfl⟩)
 
-theorem PIo.cleanupContexts (h : PIo fl s) : PIo fl (cleanupContexts s) := by
+theorem PIo.cleanupContexts (h : PIo c fl s) : PIo c fl (cleanupContexts s) := by
   unfold Backend.cleanupContexts
   split
   · exact h
   · exact PIo.cleanupGo _ _ h
 
-theorem PIo.frame {s s' : BSt} (h : PIo fl s) (hc : core s' = core s) : PIo fl s' := h.same (Same.ofCore hc)
+theorem PIo.frame {s s' : BSt} (h : PIo c fl s) (hc : core s' = core s) : PIo c fl s' := h.same (Same.ofCore hc)
 
-theorem PIo.cleanupLoggers (h : PIo fl s) : PIo fl (cleanupLoggers s) := by
+theorem PIo.reapSinksInj {inj : BSt → Nat → BSt} (hi : InjOK inj) (l : List Nat) (s : BSt) (h : PIo c fl s) :
+    PIo c fl (reapSinksInj inj s l) := by
+  unfold Backend.reapSinksInj
+  apply foldl_inv (fun x : BSt => PIo c fl x) _ _ _ h
+  intro b sid hb
+  split
+  · apply hi.pio
+    exact hb.frame rfl
+  · exact hb
+
+theorem PIo.cleanupLoggers {inj : BSt → Nat → BSt} (hi : InjOK inj) (h : PIo c fl s) : PIo c fl (cleanupLoggers inj s) := by
   unfold Backend.cleanupLoggers
   split
   · exact h
   · simp only
-    apply foldl_inv (fun x : BSt => PIo fl x)
-    · refine foldl_inv (fun acc : BSt × List Nat => PIo fl acc.1) _ _ _ (h.frame rfl) ?_
+    apply foldl_inv (fun x : BSt => PIo c fl x)
+    · refine foldl_inv (fun acc : BSt × List Nat => PIo c fl acc.1) _ _ _ (h.frame rfl) ?_
       intro acc i hacc
       split
       · exact hacc
       · split
-        · exact PIo.frame hacc.allEmpty (by rw [core_reapSinks]; rfl)
+        · exact PIo.reapSinksInj hi _ _ (hacc.allEmpty.frame rfl)
         · exact PIo.frame hacc.allEmpty rfl
     · intro b a hb
       split
